@@ -7,14 +7,17 @@ called with a non-empty set that is identical to the set last passed to prioriti
 version query is for the root with the singleton set of the requested version; and should_cancel is
 polled before the first query and at least once between any two choose_version calls."
 
-Proved (for ARBITRARY answer sequences, any version set, any fuel ≥ 3 where stated): the clauses on
-get_dependencies, on the first query and on should_cancel.
-Open (covered by the correspondence's trace automaton on every recorded run, see DESIGN.md):
-`choose_version`'s set is non-empty and is the set last passed to `prioritize` for that package —
-both need the queue invariant of C14 (a queued package's term has not changed since it was
-prioritized), which is not proved.
+Proved for ARBITRARY answer sequences (any version set, any fuel ≥ 3 where stated): the clauses on
+get_dependencies, on the first query and on should_cancel.  Proved for answers consistent with a world
+and a lawful version set: the set passed to `choose_version` is the set of the most recent
+`prioritize` request for that package (`C12_choose_set_is_prioritized_set`, a trace-level invariant on
+top of the queue invariant of C14).
+Open (covered by the correspondence's trace automaton on every recorded run): `choose_version`'s set is
+non-empty — needs "no accumulated term is `Positive(∅)`", which for the derivation that follows a
+backjump is part of the satisfier theory.
 -/
 import PubgrubProofs.Protocol
+import PubgrubProofs.Freshness
 
 namespace Pubgrub.C12
 open Pubgrub Pubgrub.Solver VersionSet
@@ -54,5 +57,12 @@ theorem C12_first_query (debug : Bool) (fuel : Nat) (hf : 3 ≤ fuel) (root : P)
     k = 3 ∧ p = root ∧ s = VersionSet.singleton rv ∧
       (trace debug fuel root rv as)[1]? = some (.prioritize root (VersionSet.singleton rv)) :=
   first_query debug fuel hf root rv as k p s hk hfirst
+
+theorem C12_choose_set_is_prioritized_set [LawfulVersionSet S V] (W : World P S V M) (hW : W.SetsValid)
+    (debug : Bool) (fuel : Nat) (root : P) (rv : V) (as : List (Answer P S V M Pr E))
+    (hok : AnswersOK W debug fuel root rv as) (k : Nat) (p : P) (s : S)
+    (hk : (trace debug fuel root rv as)[k]? = some (.chooseVersion p s)) :
+    ∃ pr, lastPrio (trace debug fuel root rv as) as k p = some (s, pr) :=
+  choose_set_is_prioritized_set W hW debug fuel root rv as hok k p s hk
 
 end Pubgrub.C12
